@@ -93,7 +93,7 @@ class E1Run:
         kind = op[0]
         self.op_index += 1
         if kind == "step":
-            self.do_step(int(op[1]))
+            self.do_step(int(op[1]), op[2] if len(op) > 2 else None)
         elif kind == "reset":
             self.do_reset(op[1])
         elif kind == "req":
@@ -101,8 +101,13 @@ class E1Run:
         else:
             raise GeneratorDefect(f"unknown op {op}")
 
-    def do_step(self, action: int):
+    def do_step(self, action: int, others: Optional[Dict] = None):
         env = self.env
+        # scenarios with several proxy agents (MARL configs): the gymnasium wrapper only feeds the first one; the
+        # others get their action through the same public ProxyAgent.store_action call the MARL wrapper uses
+        for name, agent in env.game.rl_agents.items():
+            if name != env._agent_name:
+                agent.store_action(int((others or {}).get(name, 0)))
         for m in self.monitors:
             m.before_step(self, action)
         try:
@@ -197,7 +202,11 @@ class E1Run:
         # truncation is informational in gymnasium; keep stepping a little past it now and then, otherwise reset
         if self.steps_since_reset >= env.game.options.max_episode_length + r.choice([0, 0, 1, 3]):
             return ["reset", r.choice([None, r.randint(0, 10**6)])]
-        return ["step", r.randrange(n)]
+        op = ["step", r.randrange(n)]
+        extra = {name: r.randrange(len(ag.action_manager.action_map)) for name, ag in env.game.rl_agents.items() if name != env._agent_name}
+        if extra:
+            op.append(extra)
+        return op
 
     def gen_fault(self) -> Optional[List]:
         """A fault = something another participant could do through the request API between two steps."""
